@@ -581,6 +581,7 @@ func specEndTagAt(b []byte, n, t int, num Number) bool {
 //@ loop 1 decreases len(b)
 func contract_ConsumeGroup(num Number, b []byte) (v []byte, n int) {
 	ensures(n == specValueLen(num, StartGroupType, b, DefaultRecursionLimit))
+	ensures(n < 0 || n <= len(b))
 	ensures(imp(n < 0, v == nil))
 	// the value is a prefix of b that excludes (at least) the shortest form of the end tag
 	ensures(imp(n >= 0, sameBase(v, b) && len(v)+specVlen(uint64(num)*8+4) <= n))
